@@ -289,7 +289,7 @@ def check_cli(case):
 @st.composite
 def cases(draw, switches, all_combos=False):
     c = draw(full.full_programs(switches, max_lines=5, operand_depth=1))
-    c["size"] = draw(st.sampled_from([33, 80, 255]))
+    c["size"] = draw(st.sampled_from([33, 80, 255, 1, 2, 256, 1000, 32766]))
     c["paren_unary"] = "paren_unary" in switches
     if not all_combos:
         c["combos"] = draw(st.lists(st.tuples(*[st.integers(0, 1)] * 5).map(list), min_size=4, max_size=4, unique_by=tuple))
@@ -309,7 +309,7 @@ def cli_cases(draw, switches):
         # make the size map matter: DIM the configured ZA$ / ZB$() / ZC$ at the start of the program
         import re as _re
         src = _re.sub(r"^(\d+ ?)", r"\1DIM ZA$,ZB$(3),ZC$:", src, count=1)
-    return {"kind": "cli", "source": src, "flags": flags, "stem": stem, "config": cfg, "size": draw(st.sampled_from([32, 33, 100])), "_meta": c["_meta"]}
+    return {"kind": "cli", "source": src, "flags": flags, "stem": stem, "config": cfg, "size": draw(st.sampled_from([32, 33, 100, 1, 2, 255, 256, 300, 4096, 32766])), "_meta": c["_meta"]}
 
 
 def campaign(seed, n, switches=frozenset(), all_combos=False):
